@@ -213,7 +213,7 @@ fn c11_l1_two_byte_simple() {
   let p = [0xf8u8, x];
   let mut d = Decoder::from(&p[..]);
   let r = cv::decode_value(&mut d);
-  kani::cover!(r.is_ok());
+  kani::cover!(x == 20);
   assert!(r.is_err());
   core::mem::forget(r);
 }
@@ -232,6 +232,12 @@ fn c11_l1_tag() {
   let n: usize = kani::any();
   kani::assume(n <= 10);
   kani::assume(p[0] >> 5 == 6);
+  // one level of nesting: the content is not itself a tag (deeper nesting is the same step again)
+  if let Head::Ok { len, .. } = ref_head(&p[..n]) {
+    if len < n {
+      kani::assume(p[len] >> 5 != 6);
+    }
+  }
   let mut d = Decoder::from(&p[..n]);
   let r = cv::decode_value(&mut d);
   match ref_head(&p[..n]) {
@@ -385,6 +391,110 @@ fn c11_l2_bytes_indef() {
   }
   kani::cover!(r.is_ok());
   kani::cover!(r.is_err());
+  core::mem::forget(r);
+  core::mem::forget(want);
+}
+
+/// Indefinite-length text string given to `read_text(None)`: frame `[6x a.., 6y b.., ff]`
+/// with two chunks of concrete lengths 1 and 1 and symbolic payload bytes: accepted iff
+/// *each chunk* is valid UTF-8 on its own (RFC 8949 §3.2.3: chunks of a text string are
+/// text strings), result = concatenation.
+#[kani::proof]
+#[kani::unwind(5)]
+fn c11_l2_text_indef_1_1() {
+  let a: u8 = kani::any();
+  let b: u8 = kani::any();
+  let p = [0x61u8, a, 0x61, b, 0xff];
+  let mut d = Decoder::from(&p[..]);
+  let r = cv::read_text(&mut d, None);
+  let valid = a < 0x80 && b < 0x80;
+  match &r {
+    Ok(s) => {
+      assert!(valid);
+      let sb = s.as_bytes();
+      assert!(sb.len() == 2 && sb[0] == a && sb[1] == b);
+    }
+    Err(_) => assert!(!valid),
+  }
+  kani::cover!(r.is_ok());
+  kani::cover!(r.is_err() && a >= 0xc2 && a <= 0xdf && b >= 0x80 && b <= 0xbf);
+  core::mem::forget(r);
+}
+
+/// Indefinite-length string framing: 3 symbolic bytes after the indefinite head, each
+/// chunk head restricted to a zero-length definite chunk of either string type, an
+/// indefinite chunk head, a break, or a non-string head: accepted iff every head before
+/// the first break is a definite chunk of the *same* major type and a break is present.
+#[kani::proof]
+#[kani::unwind(6)]
+fn c11_l2_indef_framing() {
+  let p: [u8; 3] = kani::any();
+  let n: usize = kani::any();
+  kani::assume(n <= 3);
+  let text: bool = kani::any();
+  let ok_head = |c: u8| c == 0x40 || c == 0x60 || c == 0x5f || c == 0x7f || c == 0xff || c == 0x00 || c == 0x80;
+  kani::assume(ok_head(p[0]) && ok_head(p[1]) && ok_head(p[2]));
+  let mut d = Decoder::from(&p[..n]);
+  let own: u8 = if text { 0x60 } else { 0x40 };
+  // reference: scan heads until break
+  let mut want_ok = false;
+  let mut bad = false;
+  let mut i = 0;
+  while i < 3 {
+    if i < n && !want_ok && !bad {
+      if p[i] == 0xff {
+        want_ok = true;
+      } else if p[i] != own {
+        bad = true;
+      }
+    }
+    i += 1;
+  }
+  let accepted = if text {
+    let r = cv::read_text(&mut d, None);
+    let ok = matches!(&r, Ok(s) if s.is_empty());
+    let is_ok = r.is_ok();
+    core::mem::forget(r);
+    assert!(ok == is_ok);
+    is_ok
+  } else {
+    let r = cv::read_bytes(&mut d, None);
+    let ok = matches!(&r, Ok(v) if v.is_empty());
+    let is_ok = r.is_ok();
+    core::mem::forget(r);
+    assert!(ok == is_ok);
+    is_ok
+  };
+  assert!(accepted == (want_ok && !bad));
+  kani::cover!(accepted && n == 3);
+  kani::cover!(!accepted && n == 3 && p[2] == 0xff);
+}
+
+/// Indefinite-length array given to `decode_array(None)`: frame of 3 symbolic bytes,
+/// each a one-byte item (small unsigned, simple value), a tag head 0xc1, a definite
+/// array head 0x81, or a break. Accepted iff the bytes up to the first top-level break
+/// form complete items: a break in the position of a tag's content or of a definite
+/// array's element is an error (RFC 8949 §3.2.1), not the end of the container.
+#[kani::proof]
+#[kani::unwind(5)]
+fn c11_l3_array_indef_nested_break() {
+  let p: [u8; 3] = kani::any();
+  let okb = |c: u8| c == 0x01 || c == 0xf6 || c == 0xc1 || c == 0x81 || c == 0xff;
+  kani::assume(okb(p[0]) && okb(p[1]) && okb(p[2]));
+  let mut d = Decoder::from(&p[..]);
+  let r = cv::decode_array(&mut d, None);
+  let mut full = [0x9fu8, 0, 0, 0];
+  full[1] = p[0];
+  full[2] = p[1];
+  full[3] = p[2];
+  let want = ref_decode(&full, RefOpts { two_byte_simple_below_32_ok: true }, 4);
+  match (&r, &want) {
+    (Ok(items), Some((RefValue::Array(w), _))) => assert!(items.len() == w.len()),
+    (Err(_), None) => {}
+    _ => assert!(false),
+  }
+  kani::cover!(r.is_ok());
+  kani::cover!(r.is_err() && p[2] == 0xff);
   core::mem::forget(r);
   core::mem::forget(want);
 }
